@@ -19,3 +19,40 @@ package gochannel
 //@   ensures has(f.subscribedTopics, topic) [remembered]
 //@   panics-ensures !old(has(f.subscribedTopics, topic)) [only-a-duplicate-handler-name-in-the-internal-router-panics]
 //@   modifies map(f.subscribedTopics), map(f.internalRouter.handlers), wg(f.internalRouter.handlersWg)
+
+// ---- subscriptions (C04, C05, C07) ----
+
+//@ type subscriber
+//@   self s
+//@   monitor sending guards closed(write), #lastSent
+//@   ghostfield lastSent *message.Message
+//@   ownschan outputChannel, closing
+//@   invariant s.outputChannel != nil && s.closing != nil [mon:sending:channels-exist]
+//@   invariant s.closed == closed(s.outputChannel) [mon:sending:closed-flag-tells-the-output-channel]
+//@   invariant s.closed ==> closed(s.closing) [mon:sending:closing-is-announced-first]
+//@   invariant gf(lastSent, s) == nil || gf(lastSent, s).ackSentType != 0 || closed(s.closing) [mon:sending:at-most-one-unsettled-delivery-unless-closing]
+
+//@ func (*subscriber).Close
+//@   requires s != nil && s.closing != nil && (!s.closed ==> !closed(s.closing))
+//@   ghost sole-writer s.closed
+//@   nopanic
+//@   ensures s.closed [closed]
+//@   ensures !old(s.closed) ==> closed(s.outputChannel) && closed(s.closing) [output-channel-closed-after-closing-was-announced]
+//@   modifies s.closed, closed(s.closing), closed(s.outputChannel)
+
+//@ func (*subscriber).sendMessageToSubscriber
+//@   requires s != nil && msg != nil && s.ctx != nil
+//@   ghost strong gf(lastSent, s)
+//@   ghost set lastSent(s) = msgToSend @send:s.outputChannel
+//@   nopanic
+//@   ensures (gf(lastSent, s) != nil && gf(lastSent, s).ackSentType == 1 && sends(s.outputChannel) > old(sends(s.outputChannel))) || s.closed || closed(s.closing) [returns-only-after-the-delivery-was-acked-or-the-subscription-is-closing]
+//@   ensures sends(s.outputChannel) > old(sends(s.outputChannel)) ==> cancelled(gf(lastSent, s).ctx) [the-delivery-context-is-cancelled-afterwards]
+//@   ensures msg.ackSentType == old(msg.ackSentType) || old(msg.ackSentType) == 0 [the-original-is-never-settled-here]
+//@   assert @send:s.outputChannel: msgToSend != nil && msgToSend != msg && fresh(msgToSend) && msgToSend.UUID == msg.UUID && msgToSend.Payload == msg.Payload && fresh(msgToSend.Metadata) && sameMetadata(msgToSend.Metadata, msg.Metadata) && msgToSend.ackSentType == 0 [every-delivery-is-a-fresh-equal-copy]
+//@   assert @send:s.outputChannel: msgToSend.ctx != nil && ctxparent(msgToSend.ctx) == s.ctx && (cancelled(msgToSend.ctx) ==> cancelled(s.ctx)) [delivery-context-derives-from-the-subscription-context-and-is-live-unless-that-ended]
+//@   assert @send:s.outputChannel: !s.closed [never-sends-on-a-closed-subscription]
+//@   assert @send:s.outputChannel: gf(lastSent, s) == nil || gf(lastSent, s).ackSentType != 0 [previous-delivery-settled-before-the-next-one]
+//@   inv loop 1: ctx != nil && ctxparent(ctx) == s.ctx && (cancelled(ctx) ==> cancelled(s.ctx)) && sends(s.outputChannel) >= old(sends(s.outputChannel)) [delivery-context-fixed]
+//@   inv loop 1: sends(s.outputChannel) > old(sends(s.outputChannel)) ==> gf(lastSent, s) != nil && gf(lastSent, s).ackSentType == 2 && gf(lastSent, s).ctx == ctx [a-further-delivery-only-after-a-nack]
+//@   inv loop 1: sends(s.outputChannel) == old(sends(s.outputChannel)) ==> gf(lastSent, s) == entry(gf(lastSent, s)) [first-iteration]
+//@   modifies closed(s.outputChannel)
